@@ -38,9 +38,15 @@ static int probe_shellesc(int argc, char** argv) {
     Rule* rule = new Rule("r");
     EvalString cmd;
     cmd.AddText(tool + " ");
-    if (mode == "c") { cmd.AddSpecial("in"); cmd.AddText(" -- "); cmd.AddSpecial("out"); }
+    if (mode == "c" || mode == "d") { cmd.AddSpecial("in"); cmd.AddText(" -- "); cmd.AddSpecial("out"); }
     else cmd.AddSpecial("in_newline");
     rule->AddBinding("command", cmd);
+    if (mode == "d") {
+      // the usual depfile = $out.d / rspfile = $out.rsp: paths ninja itself opens (unescaped), evaluated before the command
+      EvalString df; df.AddSpecial("out"); df.AddText(".d"); rule->AddBinding("depfile", df);
+      EvalString rf; rf.AddSpecial("out"); rf.AddText(".rsp"); rule->AddBinding("rspfile", rf);
+      EvalString rc; rc.AddSpecial("in"); rule->AddBinding("rspfile_content", rc);
+    }
     state.bindings_.AddRule(std::unique_ptr<const Rule>(rule));
     Edge* edge = state.AddEdge(rule);
     std::string err;
@@ -50,6 +56,13 @@ static int probe_shellesc(int argc, char** argv) {
       else ok = state.AddOut(edge, names[i], 0, &err) && ok;
     }
     if (!ok) { printf("ERR %s\n", Hex(err).c_str()); continue; }
+    if (mode == "d") {
+      std::string df = edge->GetUnescapedDepfile(), rf = edge->GetUnescapedRspfile();
+      std::string c = edge->EvaluateCommand();
+      std::string df2 = edge->GetUnescapedDepfile();
+      printf("%s %s %s %s\n", Hex(c).c_str(), Hex(df).c_str(), Hex(rf).c_str(), Hex(df2).c_str());
+      continue;
+    }
     printf("%s\n", Hex(edge->EvaluateCommand()).c_str());
   }
   return 0;
